@@ -3,6 +3,7 @@ in-process, and compare the normalised output objects.  Used by C29 and C34."""
 from __future__ import annotations
 
 import contextlib
+import gc
 import hashlib
 import io
 import json
@@ -70,6 +71,23 @@ def case_tmp(d):
             os.environ.pop("TMPDIR", None)
         else:
             os.environ["TMPDIR"] = old_env
+
+
+@contextlib.contextmanager
+def no_gc():
+    """The cyclic garbage collector is paused while StreamFlow code runs in-process and run between cases.
+    Reason (observed, stacks in design_notes/C34.md): when a collection starts inside a call of a cachebox
+    `@cached` wrapper (streamflow persistence / loading), the collector's traversal of the cache blocks on the
+    cache's own native lock, which the interrupted call holds: the interpreter deadlocks in a futex where no
+    Python-level guard (signal, alarm) can reach it."""
+    was = gc.isenabled()
+    gc.disable()
+    try:
+        yield
+    finally:
+        if was:
+            gc.enable()
+        gc.collect()
 
 
 def reset_js():
@@ -188,7 +206,7 @@ def run_sf(d, alarm=None, timeout=120, streamflow_file=None, name=None, outdir="
     reset_js()
     try:
         os.chdir(d)
-        with case_tmp(d), contextlib.redirect_stdout(out), (alarm(timeout) if alarm else contextlib.nullcontext()):
+        with no_gc(), case_tmp(d), contextlib.redirect_stdout(out), (alarm(timeout) if alarm else contextlib.nullcontext()):
             rc = sf_main(args)
         log = "\n".join(cap.lines)
         if any(m in log for m in ENVIRONMENT_MARKS):
